@@ -316,7 +316,7 @@ func (c *FuncCtx) checkPost(st *State, specEnv map[string]*Val, recv *Val, args 
 		}
 		saved := st.bound
 		st.bound = map[string]*Val{"$pos": {S: strconv.Itoa(int(c.decl.Body.Rbrace))}}
-		c.likeClauses(st, c.contract, env, results, func(cl *Clause, idx int, f, text string) {
+		c.likeClausesM(st, c.contract, env, results, true, func(cl *Clause, idx int, f, text string) {
 			c.oblige(st, "post", fmt.Sprintf("like%d", idx+1), c.decl.Body.Rbrace, f, cl.Tags, text)
 		})
 		st.bound = saved
